@@ -26,3 +26,7 @@ def run(repo, res, tier):
     an = langrules.analyse(repo)
     langrules.rule_k1(repo, res, an)
     langrules.rule_s2(repo, res, an)
+    # the alignment width and every statement are computed from the pairs themselves: a key-by-key re-lookup gives a
+    # repeated name the value (and so the kind: block or assignment) of its first occurrence
+    from .. import hookrules as _hk12
+    _hk12.rule_reindex(repo, res)
